@@ -542,6 +542,8 @@ def _eval_atom(a, val, cache):
         return math.exp(args[0])
     if op == "abs":
         return abs(args[0])
+    if op == "trunc":
+        return float(math.trunc(args[0]))
     if op == "sign":
         return float((args[0] > 0) - (args[0] < 0))
     if op == "lt":
